@@ -150,3 +150,42 @@ Proof.
   - assert (0 < cos 0.0175) by (apply cos_gt_0; pose proof PI_RGT_0; pose proof PI2_3_2; lra). lra.
   - assert (0 < cos 0.0191) by (apply cos_gt_0; pose proof PI_RGT_0; pose proof PI2_3_2; lra). lra.
 Qed.
+
+(* ---- the REAL divisions of the generated integrand (1/k_s, 1/k_i, 1/k_p, 0.5/ks_f, 0.5/ki_f, |k|/n, sec^2, /M2): all divisors are
+   non-zero for positive indices and frequencies and non-grazing exit angles; no statement of this development relies on x / 0 = 0 *)
+Definition pm_physical_real (p : pm_params) : Prop :=
+  0 < p_n_s p /\ 0 < p_n_i p /\ 0 < p_n_p p /\ 0 < p_omega_s p /\ 0 < p_omega_i p /\
+  cos (p_theta_s_e p) <> 0 /\ cos (p_theta_i_e p) <> 0.
+
+Lemma signum_neq_0 x : signum x <> 0.
+Proof. unfold signum. destruct (Rle_dec 0 x); lra. Qed.
+
+Theorem real_divisions_defined p : pm_physical_real p ->
+  pm_k_s p <> 0 /\ pm_k_i p <> 0 /\ pm_k_p p <> 0 /\ pm_ks_f p <> 0 /\ pm_ki_f p <> 0 /\
+  p_n_s p <> 0 /\ p_n_i p <> 0 /\ pm_M2 p <> 0 /\
+  cos (p_theta_s_e p / 1) ^ 2 <> 0 /\ cos (p_theta_i_e p / 1) ^ 2 <> 0.
+Proof.
+  intros (Hns & Hni & Hnp & Hws & Hwi & Hcs & Hci).
+  assert (Hks : pm_k_s p <> 0).
+  { unfold pm_k_s, pm_sign_ks. apply Rmult_integral_contrapositive_currified; [apply signum_neq_0|].
+    apply Rgt_not_eq. apply Rdiv_lt_0_compat; [apply Rmult_lt_0_compat; assumption | lra]. }
+  assert (Hki : pm_k_i p <> 0).
+  { unfold pm_k_i, pm_sign_ki. apply Rmult_integral_contrapositive_currified; [apply signum_neq_0|].
+    apply Rgt_not_eq. apply Rdiv_lt_0_compat; [apply Rmult_lt_0_compat; assumption | lra]. }
+  assert (Hkp : pm_k_p p <> 0).
+  { unfold pm_k_p, pm_omega_p. apply Rgt_not_eq. apply Rdiv_lt_0_compat; [apply Rmult_lt_0_compat; lra | lra]. }
+  repeat split; try assumption; try lra.
+  - unfold pm_ks_f. apply Rgt_not_eq. apply Rdiv_lt_0_compat; [apply Rabs_pos_lt; assumption | assumption].
+  - unfold pm_ki_f. apply Rgt_not_eq. apply Rdiv_lt_0_compat; [apply Rabs_pos_lt; assumption | assumption].
+  - unfold pm_M2. lra.
+  - replace (p_theta_s_e p / 1) with (p_theta_s_e p) by field. apply pow_nonzero. assumption.
+  - replace (p_theta_i_e p / 1) with (p_theta_i_e p) by field. apply pow_nonzero. assumption.
+Qed.
+
+Lemma physical_real_example : pm_physical_real pm_example.
+Proof.
+  unfold pm_physical_real, pm_example; cbn [p_n_s p_n_i p_n_p p_omega_s p_omega_i p_theta_s_e p_theta_i_e].
+  repeat split; try lra.
+  - assert (0 < cos 0.0175) by (apply cos_gt_0; pose proof PI_RGT_0; pose proof PI2_3_2; lra). lra.
+  - assert (0 < cos 0.0191) by (apply cos_gt_0; pose proof PI_RGT_0; pose proof PI2_3_2; lra). lra.
+Qed.
